@@ -55,6 +55,11 @@ func checkCiscoConv(p *Prog, r *Report, prop, flavour string) {
 	r.rule("R01.n", "The normalisers of the Cisco parser (postprocessParsed, postprocessASAACL / postprocessIOSACL, postprocessACLParts) decide which device spellings equal which Netspoc spellings: they work with exactly the audited constants (tables/normaliser_consts.tsv); their stores into the compared text are audited by R-M.")
 	ruleNormaliserAudit(p, r, "R01.n", prop, false)
 	if flavour == "ios" {
+		ruleMoveOnce(p, r, "R-MV", []string{"(*cisco.State).diffIOSACLs"})
+	} else {
+		ruleMoveOnce(p, r, "R-MV", []string{"(*cisco.State).diffASAACLs"})
+	}
+	if flavour == "ios" {
 		r.rule("R08.k", "IOS numbering constants agree (see C08).")
 		ruleIOSNumbering(p, r)
 		ruleDroppedMoveIdentical(p, r, "R02.l")
